@@ -159,6 +159,12 @@ def wild_frames(rng):
     elif ix == "dt-ns" and m:
         df.index = pd.DatetimeIndex([pd.Timestamp("2020-01-01 00:00:00.000000001") + pd.Timedelta(nanoseconds=7 * i)
                                      for i in range(m)])
+    labels = "str"
+    if len(df.columns) and rng.random() < 0.15:
+        # column labels that are not strings (the default labels of `pd.DataFrame(ndarray)`, float labels)
+        labels = rng.choice(["int", "float"])
+        df.columns = [i if labels == "int" else i + 0.5 for i in range(len(df.columns))]
+        kinds = kinds + [labels + "-labels"]
     if m >= 3 and rng.random() < 0.35:
         # a frame sliced out of a larger one keeps the parent's unused index levels / categories
         df = df.iloc[1:m - 1 if m > 3 else m]
@@ -254,6 +260,8 @@ def p_impl(rep, case, obj, label):
                         return S
         if isinstance(obj, pd.DataFrame):
             for fmt, w, r in (("yaml", io.to_yaml, io.from_yaml), ("json", io.to_json, io.from_json)):
+                if fmt == "json" and not all(isinstance(k, str) for k in obj.columns):
+                    continue        # the keys of a JSON object are strings: other labels cannot be written (DESIGN §8)
                 try:
                     S2 = r(w(S))
                     out2 = S2.validate(obj)
